@@ -378,6 +378,26 @@ func TestC19_PacketStoreReadBack(t *testing.T) {
 	rapid.Check(t, func(t *rapid.T) {
 		pool := genNamePool(t, rapid.IntRange(2, 5).Draw(t, "names"))
 		ts := genTriples(t, pool, rapid.IntRange(1, 10).Draw(t, "triples"))
+		// occasionally a long history on one path: more than a hundred consecutive sequences (iterators and list
+		// queries must return every stored key, whatever their internal page size)
+		if rapid.IntRange(0, 24).Draw(t, "bulk") == 0 {
+			base := ts[0]
+			if base.Seq > 1<<62 {
+				base.Seq = 7
+			}
+			seen := map[triple]bool{}
+			for _, x := range ts {
+				seen[x] = true
+			}
+			for i, n := 1, rapid.IntRange(101, 230).Draw(t, "bulkCount"); i <= n; i++ {
+				x := triple{base.Src, base.Dst, base.Seq + uint64(i)}
+				if !seen[x] {
+					seen[x] = true
+					ts = append(ts, x)
+				}
+			}
+			r.Label("bulk_over_100_triples")
+		}
 		masks := make([]int, len(ts))
 		for i := range ts {
 			masks[i] = rapid.IntRange(1, 15).Draw(t, "kinds")
